@@ -38,6 +38,7 @@ def _one(args: Tuple[str, str, str, str, str, Optional[str]]) -> Dict[str, Any]:
                 _ast.parse(v)
             m = Model(root=base.root, overrides=ov, reuse=base)
             rep = Report(prop, "thorough", quiet=True)
+            rep.tree_changed = True
             importlib.import_module(f"sa.rules.{prop.lower()}").run(m, rep)
             rep.finish()
             fired = sorted({i.rule for i in rep.violations})
@@ -58,6 +59,7 @@ def _one(args: Tuple[str, str, str, str, str, Optional[str]]) -> Dict[str, Any]:
         try:
             m = Model(root=base.root, overrides=ov, reuse=base)
             rep = Report(prop, "thorough", quiet=True)
+            rep.tree_changed = True
             importlib.import_module(f"sa.rules.{prop.lower()}").run(m, rep)
             rep.finish()
             fired = sorted({i.rule for i in rep.violations})
@@ -92,6 +94,7 @@ def _one(args: Tuple[str, str, str, str, str, Optional[str]]) -> Dict[str, Any]:
     try:
         m = Model(root=base.root, overrides={rel: new_src}, reuse=base)
         rep = Report(prop, "thorough", quiet=True)
+        rep.tree_changed = True
         importlib.import_module(f"sa.rules.{prop.lower()}").run(m, rep)
         rep.finish()
         fired = sorted({i.rule for i in rep.violations})
